@@ -126,8 +126,10 @@ theorem values_oracle_independent (r : Registry) (lk : Link) (hl : Linked r lk) 
       (fun a => ((hv1 x hx).1 a).trans ((hv2 x hx).1 a).symm)
   · rw [ho1 x hx, ho2 x hx]
 
-/-- A second `Process` on the same `Modules` starts from the lists the first one left (the AST
-mutation persists) and appends the direct children again: the result is the same. -/
+/-- A second `Process` on the same `Modules`: even if it started from the lists the first one left
+(the AST mutation persists) and appended the direct children again, the result would be the same.
+(Since commit 41df8a9 Go clears the lists first, which is the case `vals0 = fun _ => []` directly;
+the runner processes every source set twice on one `Modules` and compares.) -/
 theorem second_process_same (r : Registry) (lk : Link) (hl : Linked r lk) (hw : WellFormed r)
     (G : Graph) (hG : graph r = some G) (o1 o2 : Oracle) (h1 : o1.Valid) (h2 : o2.Valid) :
     ∃ res1 res2, resolveIdentities o1 r lk (fun _ => []) = some res1 ∧
